@@ -20,6 +20,7 @@ HsChecks(e) ==
   LET c == C05Class(e.sc) IN
   Flag(c = e.class, "TOOL_class")
   \cup Flag(e.dec # "panic" /\ e.enc # "panic", "C05_panic")
+  \cup Flag(e.dec # "panic" /\ e.enc # "panic", "C09_panic_or_abort")    \* the same observation, reported by C09 on its own run
   \cup Flag(c = "refused" => ~e.wrote, "C05_encrypted_to_null_key")
   \cup Flag(c = "must_accept" => (e.wrote /\ e.dec = "ok" /\ e.plain_ok), "C05_rejected_honest_file")
   \cup Flag(c = "must_reject" => (~e.wrote \/ e.dec # "ok"), "C05_accepted_forged_or_misaddressed_file")
@@ -55,6 +56,8 @@ Checks(e) ==
     [] e.ev = "golden" -> GoldenChecks(e)
     [] e.ev = "hh"     -> HhChecks(e)
     [] e.ev = "nonce"  -> NonceChecks(e)
+    \* the process running this scenario was killed by the code under test (abort, panic across the C boundary)
+    [] e.ev = "crash" -> {<<l, e.prop \o "_process_killed_in_the_code_under_test">>}
     [] OTHER           -> {<<l, "TOOL_unknown_event">>}
 
 Step ==
